@@ -2061,6 +2061,9 @@ def gen_case(rng, thorough=False):
         # with, also across a rollback — and with nothing between the last savepoint and the rollback: what
         # happens to objects modified in between is C11/C12's subject.)
         ops.append(['root', 0, 'spj', rng.choice(allnames)])        # the connection joins the transaction
+        # (with a tiny cache the cacheGC() of a savepoint turns the new objects it has just stored into ghosts; a
+        # rollback then disowns them as ghosts and their state is gone — C12's subject, not generated here)
+        case['cache_size'] = 400
         ops.append(['savepoint'])
         batches = []
         k = rng.choice([1, 2, 2, 3])
